@@ -4,6 +4,7 @@ import (
 	"bytes"
 	"encoding/json"
 	"fmt"
+	"strings"
 
 	smtp "github.com/emersion/go-smtp"
 
@@ -132,6 +133,21 @@ func c06Run(ctx *core.Ctx) {
 			}
 		}
 	}, c06Exec)
+	// declared chunk sizes near 2^63 after an accepted chunk: the limit arithmetic must not wrap
+	// (shares the executor of C05's unsatisfiable-size cases; signatures carry this property's id)
+	core.RunCases(ctx, func(emit func(c05Case)) {
+		idx := 0
+		for _, hs := range []string{"9223372036854775807", "9223372036854775800", "9223372036854775777", "4611686018427387904", "4294967296", "41"} {
+			for _, after := range []int{1, 5, 30, 40} {
+				for _, mode := range []srvMode{modeSMTP, modeLMTP, modeLMTPRcpt} {
+					for _, last := range []bool{false, true} {
+						idx++
+						emit(c05Case{Msg: []byte(strings.Repeat("payload-beyond-the-limit ", 8)), MsgQ: "200 octets", Chunks: []int{0}, Seg: []string{"glued", "split"}[idx%2], Mode: mode, Huge: hs, HugeAfter: after, LineLimit: 64, ExtraLast: last})
+					}
+				}
+			}
+		}
+	}, c05Exec)
 }
 
 type c06Outcome struct {
